@@ -14,9 +14,9 @@ import (
 )
 
 func v(name string, steps ...string) Expr { return Var{Name: name, Steps: steps} }
-func lits(s string) Expr                   { return Lit{V: StrV(s)} }
-func T(s string) Node                      { return Text{S: s} }
-func O(e Expr) Node                        { return Out{E: e} }
+func lits(s string) Expr                  { return Lit{V: StrV(s)} }
+func T(s string) Node                     { return Text{S: s} }
+func O(e Expr) Node                       { return Out{E: e} }
 
 // probe prints both names
 func probe(tag string) []Node {
